@@ -71,9 +71,36 @@ pub fn run_campaign(
         mismatch: None,
         runs: 0,
     });
+    // watchdog: real code that loops without ever reaching a yield point would hang the
+    // harness; a run stuck for more than 120 s of real time is reported, never waited for
+    let inflight: Mutex<std::collections::BTreeMap<u64, (Instant, BerCfg)>> = Mutex::new(Default::default());
+    let campaign_done = AtomicBool::new(false);
+    let label_owned = label.to_string();
+    let seed = opts.seed;
+    std::thread::scope(|scope| {
+    scope.spawn(|| {
+        while !campaign_done.load(std::sync::atomic::Ordering::SeqCst) {
+            std::thread::sleep(std::time::Duration::from_millis(250));
+            let stuck = inflight.lock().unwrap().iter().find(|(_, (t, _))| t.elapsed().as_secs() >= 120).map(|(r, (_, c))| (*r, c.clone()));
+            if let Some((run, cfg)) = stuck {
+                let prop = label_owned.trim_end_matches(|c: char| c.is_ascii_lowercase()).to_string();
+                let body = json!({
+                    "property": prop, "engine": "bersim", "seed": seed, "run": run, "config": cfg.to_json(),
+                    "violation": {"kind": "no-yield-hang", "detail": "one simulated run made no scheduling step for 120 s of real time: code under test loops without reaching an intercepted operation"},
+                    "replay_verified": false,
+                });
+                let path = write_replay(&prop, seed, run, &body);
+                println!("VIOLATION property={} replay={}", prop, path);
+                println!("  kind=no-yield-hang detail=run {} did not finish within 120 s of real time", run);
+                std::process::exit(1);
+            }
+        }
+    });
     par_map(n_runs, opts.threads, deadline, &stop, |run| {
         let cfg = generate(opts.seed, run);
+        inflight.lock().unwrap().insert(run, (Instant::now(), cfg.clone()));
         let obs = run_one(&cfg);
+        inflight.lock().unwrap().remove(&run);
         let (viol, st) = oracle(&cfg, &obs);
         let sig = transport_signature(&cfg, &obs);
         let mut local = Counters::default();
@@ -164,6 +191,8 @@ pub fn run_campaign(
                 a.failures.push(Failure { run, cfg: cfg.clone(), violation: vio, trace: obs.outcome.trace.clone() });
             }
         }
+    });
+    campaign_done.store(true, std::sync::atomic::Ordering::SeqCst);
     });
     let a = acc.into_inner().unwrap();
     eprintln!(
